@@ -37,6 +37,10 @@ struct OpCtx {
 	int mprotects = 0;           // page-protection requests seen in this call
 	int pfired = 0;              // refused ones
 	int sigactions = 0;          // signal-disposition requests seen in this call
+	uint32_t preempt_after = 0;  // >0: the calling thread is preempted after this many library instructions (plain variant) ...
+	uint32_t preempt_at = 0;     // ... counted from the preempt_at-th scheduling point passed inside the call (0: from the start)
+	uint32_t yields_seen = 0;
+	bool preempted = false;      // ... and it happened (another thread ran in between)
 };
 
 extern volatile int g_tsan_flood; // set by the TSan glue after many reports: stop un-ignoring the library
@@ -62,6 +66,7 @@ struct SeamStats {
 	uint64_t maps_audits = 0;
 	uint64_t mprotect_refused = 0;    // injected page-protection failures
 	uint64_t sigactions = 0;          // sigaction/signal calls made by the library
+	uint64_t preempt_armed = 0, preempt_fired = 0, preempt_steps = 0; // instruction-level preemption: shots armed / that switched threads / single steps taken
 };
 const SeamStats &stats();
 
